@@ -195,10 +195,74 @@ def random_history(rng, nops, universe=("x", "y", "z", "m", "g")):
     return ops
 
 
+def partition_histories(ctx, b):
+    """mtbl_fileset_partition (deprecated, still public): after any sequence of setfile rewrites and reloads, the two mergers
+    hold exactly the files of the current view split by the callback - all files of the shared set, whatever the handle's
+    own filters - merged with the handle's merge options; they are used while the setfile stays as it is, then destroyed."""
+    rng = ctx.rng
+    wd = ctx.sub("part")
+    lines = []
+    nh = 30 if ctx.quick() else 600
+    for n in range(nh):
+        d = os.path.join(wd, "p%d" % n)
+        os.makedirs(d, exist_ok=True)
+        L = ["scratch " + d, "clock 1000"]
+        for name, ents in FILES_MANY.items():
+            L.append("w_init 0 %s none default 1024 2 -1 0" % os.path.join(d, name))
+            for k, toks in ents:
+                L.append("w_add 0 %s T%s" % (shapes.hexs(k), ",".join(map(str, toks))))
+            L.append("w_close 0")
+        L.append("mkfile %s 6e6f742061207461626c65" % os.path.join(d, "g"))
+        setf = os.path.join(d, "set.txt")
+        universe = list(FILES_MANY) + ["m", "g"]
+        mtime = 5000
+        L.append("setfile %s %d %s" % (setf, mtime, " ".join(rng.sample(universe, rng.randint(0, len(universe))))))
+        L.append("fs_init 1 %s %s %d %d %s %d" % (setf, rng.choice(["0", "5", "never"]), rng.choice([1, 1, 0]), rng.choice([0, 1]),
+                                                  rng.choice(["-", "-", "xy", "z"]), rng.choice([0, 0, 1, 2])))
+        handle = 1
+        if rng.random() < 0.4:
+            L.append("fs_dup 2 1 never %d 0 %s 0" % (rng.choice([1, 0]), rng.choice(["-", "x"])))
+            handle = rng.choice([1, 2])
+        for _ in range(rng.randint(0, 2)):
+            mtime += 1
+            L.append("setfile %s %d %s" % (setf, mtime, " ".join(rng.sample(universe, rng.randint(0, len(universe))))))
+            L.append(rng.choice(["fs_reload_now %d" % handle, "fs_reload %d" % handle, "clock %d" % (1000 + mtime - 4990)]))
+        if rng.random() < 0.5:
+            L += [gen.open_line(3, "f:%d" % handle, ("iter", b"", b"")), "it_next 3 2", "it_destroy 3"]
+        L.append("fs_partition %d %s 5 6" % (handle, rng.choice(["x", "xy", "z", "yz", "q"])))
+        for m in (5, 6):
+            L += [gen.open_line(1, "m:%d" % m, ("iter", b"", b"")), "it_drain 1", "it_destroy 1"]
+            k = rng.choice([b"a", b"b", b"c", b"aq"])
+            L += [gen.open_line(1, "m:%d" % m, (rng.choice(["get", "prefix"]), k, b"")), "it_drain 1", "it_destroy 1"]
+        L += ["m_destroy 5", "m_destroy 6"]
+        if handle == 2 or rng.random() < 0.5:
+            L.append("fs_destroy 1") if handle == 1 else L.extend(["fs_destroy 2", "fs_destroy 1"])
+            if handle == 1 and "fs_dup 2" in "\n".join(L):
+                L.append("fs_destroy 2")
+        else:
+            L.append("fs_destroy 1")
+            if "fs_dup 2" in "\n".join(L):
+                L.append("fs_destroy 2")
+        lines += L + ["---"]
+    evs, rc, err = core.run_drv(b, "\n".join(lines) + "\n", wd, "part", fork=True, timeout=900)
+    recs = core.convert_events(evs)
+    out = []
+    for ex in core.split_execs(recs):
+        ext = [e for e in ex if e["e"] == "Exit"]
+        if ext and (ext[0]["code"] != 0 or ext[0]["sig"] != 0):
+            core.report(ctx, "fileset partition history ended abnormally (code %s signal %s)" % (ext[0]["code"], ext[0]["sig"]), {"kind": "abnormal", "why": "code %s signal %s" % (ext[0]["code"], ext[0]["sig"])})
+            continue
+        out += ex
+        ctx.add("partition_histories", 1)
+    for ex, line in core.validate_batch(ctx, out, "part"):
+        core.report(ctx, "fileset partition not explained by the specification at trace line %d: %s" % (line, json.dumps(ex[line - 1])[:300]), {"kind": "trace", "trace": ex, "line": line})
+
+
 def run(ctx):
     b = build.build("asan")
     rng = ctx.rng
     tlc_models(ctx)
+    partition_histories(ctx, b)
     hs = tlc_behaviours(ctx, 150 if ctx.quick() else 6000)
     hs += [random_history(rng, rng.choice([10, 25, 60])) for _ in range(100 if ctx.quick() else 4000)]
     nmany = 40 if ctx.quick() else 800
